@@ -51,6 +51,21 @@ def run_case(case, tier):
     else:
         recs, _ = sources.chimera(rng)
     recs = sources.no_hydrogens(recs)
+    if case["kind"] == "built" and rng.random() < 0.25:
+        # a modified residue written as HETATM inside the chain (like MSE): its neighbours are
+        # still regular residues with their chain neighbour present
+        rl = sources.residue_list(recs)
+        inner = [i for i in range(1, len(rl) - 1) if rl[i].key[0] == "ATOM  " and not rl[i].ter_before and not rl[i + 1].ter_before
+                 and rl[i].key[4] in ("MET", "LEU", "ALA", "VAL", "ILE", "PHE", "SER")]
+        if inner:
+            i = rng.choice(inner)
+            for k, a_ in enumerate(rl[i].atoms):
+                a_ = a_.copy()
+                a_.tag = "HETATM"
+                a_.resn = "MSE" if rl[i].key[4] == "MET" else "UNK"
+                rl[i].atoms[k] = a_
+            recs = sources.emit(rl)
+            classes.append("in-chain-hetero-residue")
     opts = [case["opt"]] if case["opt"] else []
     rot, trans, tkind, moved = motion.random_pose(rng, recs)
     back_key, inv, tinv = motion.key_mapper(rot, trans)
@@ -83,6 +98,25 @@ def run_case(case, tier):
                 warns = run.rec["warnings"] if len(run.rec["names"]) == 1 else []
                 protonate_mon.check_completeness(conf, warns, viol, counts, classes)
                 nclaims += counts.get("sidechain_hydrogen_claims", 0) - before
+    # keep-protons round trip: the program's own hydrogens (all, or a random part of them) are
+    # supplied with -k; regular residues must end up with exactly their complement
+    if not opts and len(run0.rec["names"]) == 1 and not twins and rng.random() < 0.5:
+        hyd = run0.rec["confs"][run0.rec["names"][0]]["hydrogens"]
+        frac = rng.choice((1.0, 1.0, 0.5, 0.8))
+        part = [h for h in hyd if rng.random() < frac]
+        withh, nadd, _ = sources.with_hydrogens(recs, part)
+        runk = obs.run_single(pdbio.dump(withh), ["-k"], with_atoms=True, write_pka=False)
+        counts["pipeline_runs"] += 1
+        counts["keep_protons_round_trips"] = counts.get("keep_protons_round_trips", 0) + 1
+        if runk.exc:
+            viol.append({"cls": "keep-protons-raises", "msg": "-k with the program's own hydrogens raised %s" % runk.exc})
+        else:
+            confk = runk.rec["confs"][runk.rec["names"][0]]
+            # hydrogens that were supplied may legitimately touch a second heavy atom; judge counts only
+            from ..props.c07 import hydrogen_contacts
+            if hydrogen_contacts(withh) == 0:
+                protonate_mon.check_completeness(confk, runk.rec["warnings"], viol, counts, classes)
+                classes.append("keep-protons-%s" % ("all" if frac == 1.0 else "partial"))
     # orientation clause
     pa = bool(opts)
 
